@@ -44,6 +44,8 @@ pub struct Ctx {
     /// further server instances on the same data directory (SQLite): number -> (server, store)
     pub insts: HashMap<u32, (Server, Arc<LogStore>)>,
     pub cur_inst: u32,
+    /// the Server sits directly on the backend's storage object, with no harness wrapper in between
+    pub raw: bool,
 }
 
 pub fn urg(u: SnapshotUrgency) -> &'static str {
@@ -75,6 +77,7 @@ impl Ctx {
             sqlfault: false,
             insts: HashMap::new(),
             cur_inst: 0,
+            raw: false,
         };
         c.open(true);
         c
@@ -89,6 +92,27 @@ impl Ctx {
 
     /// (re)create the Server; for SQLite on the same directory
     pub fn open(&mut self, fresh: bool) {
+        if self.raw {
+            // no wrapper: whatever the backend's own StorageTxn implements (overridden trait methods
+            // included) is what the Server calls
+            match self.backend {
+                Backend::InMem => {
+                    if fresh || self.server.is_none() {
+                        self.server = Some(Server::new(self.cfg(), InMemoryStorage::new()));
+                    }
+                }
+                Backend::Sqlite => {
+                    self.server = None;
+                    if fresh && self.keep_dir.is_none() {
+                        self.dir = Some(tempfile::TempDir::new().expect("tempdir"));
+                    }
+                    let st = SqliteStorage::new(self.data_dir()).expect("open sqlite");
+                    self.server = Some(Server::new(self.cfg(), st));
+                }
+            }
+            self.store = None;
+            return;
+        }
         self.server = None; // drop the old storage object first
         match self.backend {
             Backend::InMem => {
@@ -728,6 +752,11 @@ impl Ctx {
                 let c = c.parse().unwrap();
                 self.client(c);
                 self.setcounter(c, n.parse().unwrap())
+            }
+            ["raw"] => {
+                self.raw = true;
+                self.open(true);
+                return;
             }
             ["reopen"] => self.reopen(),
             ["inst", k] => {
